@@ -5,7 +5,7 @@ The real `mwlib.apps.make_nuwiki.make_nuwiki` is run against `SynthApi`, a subcl
 building, `_do_request` continuation merging, the API semaphores and the whole `Fetcher` are the
 real code.  Image files come through the real `download_to_file` path with a fake streaming
 client.  All "network" waits go through `Net`: a response is released only when the gevent loop
-is idle, one at a time, in an order drawn from the case's seed -- greenlet interleavings vary
+is idle, one at a time (policy "burst": up to three at once), in an order drawn from the case's seed -- greenlet interleavings vary
 with the seed and are exactly reproducible (no wall clock involved).  If the loop is idle,
 nothing is in flight and make_nuwiki has not returned, the run is a hang (termination failure).
 
@@ -150,7 +150,7 @@ def gen_case(rng, big=False, cid=0):
     hi = 50 if big else 2
     lim = lambda: (rng.randint(1, hi) if rng.random() < 0.5 else rng.randint(1, min(hi, 3)))  # noqa: E731
     cfg = {"reqlimit": lim(), "reslimit": lim(), "fetch_images": rng.random() < 0.8,
-           "policy": rng.choice(["rand", "rand", "fifo", "lifo"]), "chapters": rng.random() < 0.3, "netseed": rng.randrange(1 << 30)}
+           "policy": rng.choice(["rand", "rand", "fifo", "lifo", "burst", "burst"]), "chapters": rng.random() < 0.3, "netseed": rng.randrange(1 << 30)}
     return {"id": cid, "wiki": wiki, "book": book, "cfg": cfg}
 
 
@@ -592,6 +592,14 @@ class Net:
                 _, ev = self.pending.pop(k)
                 self.released += 1
                 ev.set()
+                if self.policy == "burst":
+                    # several responses arrive in the same loop iteration: the later ones are
+                    # processed while greenlets spawned by the earlier ones have not started yet
+                    for _ in range(self.rng.randint(0, 2)):
+                        if self.pending:
+                            _, ev = self.pending.pop(self.rng.randrange(len(self.pending)))
+                            self.released += 1
+                            ev.set()
             else:
                 idle += 1
                 if idle > 50:
